@@ -6,8 +6,9 @@
     the UCI thread and the engine thread; the search is an oracle).  [run g init tr s]: the LTS
     can go from the initial state to [s] performing the labels [tr], for ANY sequence of
     commands read ([LRead c], c ranging over all abstract commands) and ANY interleaving of
-    the two threads.  [g] = ponderhit_guarded: [false] is the code of the unchanged tree
-    (`engine->ponderHit()` without null test), [true] the repaired code.
+    the two threads.  [g] = ponderhit_guarded: [false] is the code before fix commit 4d13f7c
+    (`engine->ponderHit()` without null test), [true] the repaired code; all theorems except the
+    two about the null pointer hold for both variants.
     Tie to app/texel: every observed stdin/stdout trace of the real binary must be accepted by
     the extracted checker ([accepts], proved sound below); props/c05.py.
     Specification side: Ctl/CtlSpec.v (counting of labels, [held_after], [outstanding], ...). *)
@@ -40,6 +41,12 @@ Theorem C05_one_readyok_per_isready : forall g tr s, run g init tr s ->
   (udone s = true -> count is_isready tr = count is_readyok tr).
 Proof. exact readyok_contract. Qed.
 Print Assumptions C05_one_readyok_per_isready.
+
+(** Likewise every `uci` is answered by exactly one id/option/uciok block. *)
+Theorem C05_one_uciok_per_uci : forall g tr s, run g init tr s ->
+  count is_uci tr = count is_uciok tr + uciok_due s.
+Proof. exact one_uciok_per_uci. Qed.
+Print Assumptions C05_one_uciok_per_uci.
 
 (** Search output (info lines of the search, bestmove) is printed only while some go is
     unanswered: after the bestmove that answers the last go, silence until the next go. *)
@@ -87,7 +94,8 @@ Theorem C05_no_null_engine_use : forall tr s, run true init tr s ->
 Proof. exact no_null_engine_use. Qed.
 Print Assumptions C05_no_null_engine_use.
 
-(** ... and without it (the unchanged tree) `ponderhit` as first command does. *)
+(** ... and without it (the tree before the fix) `ponderhit` as first command does; the check
+    replays this witness on the real binary on every run. *)
 Theorem C05_no_null_engine_use_refuted :
   exists tr s, run false init tr s /\ crashed s = true /\ tr = [LRead CPonderHit; LNullDeref].
 Proof. exact no_null_engine_use_refuted. Qed.
